@@ -6,7 +6,7 @@ Validity (the API contract): a zero-delay send carries a strictly smaller type t
 processed, so that it never sorts before it (larger type sorts first on equal timestamps)."""
 import argparse, json, os, random
 
-FAMILIES = ("mixed", "ties", "zerodelay", "fanout", "nonmono", "time0", "initdone", "sparse", "single", "chain", "pingpong", "relay", "burst")
+FAMILIES = ("mixed", "ties", "zerodelay", "fanout", "nonmono", "time0", "initdone", "sparse", "single", "chain", "pingpong", "relay", "burst", "laggard")
 
 
 def gen_chain(seed, size):
@@ -148,7 +148,31 @@ def gen_burst(seed, size):
             "endmask": [1, 1], "payloads": pay, "init": init, "trans": trans}
 
 
+def gen_laggard(seed, size):
+    """one LP far behind with a long backlog of its own (a self-scheduling tick), the other LPs idle from the start: in every GVT round
+    the idle threads contribute infinity and only the busy thread holds the GVT down (the situation in which a lost or overwritten
+    contribution of one thread shows at once).  The busy LP is the last one (highest thread), optionally it also pings LP 0 rarely."""
+    r = random.Random(seed * 37 + 1)
+    n = r.choice([2, 3, 4])
+    ticks = r.choice([80, 120]) if size == "small" else r.choice([400, 600])
+    pay = [{"size": 0, "padd": 0, "bytes": []}]
+    def snd(off, delay, ty):
+        return {"drule": off, "drule2": off, "delay": delay, "ty": ty, "pid": 0}
+    tick = {"draw": 0, "lib": 0, "mem": -1, "out": [{"ns": 0, "sends": [snd(0, 1, 1)]}]}
+    trans = [[tick], [tick]]
+    init = [[] for _ in range(n)]
+    init[n - 1] = [snd(0, 1, 1)]
+    need = [0] * n
+    cap = [2] * n
+    cap[n - 1] = ticks
+    need[n - 1] = ticks + 1
+    return {"seed": seed, "family": "laggard", "nlps": n, "K": 2, "T": 1, "P": 1, "split": n, "need": need, "cap": cap,
+            "endmask": [1, 1], "payloads": pay, "init": init, "trans": trans}
+
+
 def gen(seed, family="mixed", size="small"):
+    if family == "laggard":
+        return gen_laggard(seed, size)
     if family == "burst":
         return gen_burst(seed, size)
     if family == "relay":
